@@ -261,8 +261,14 @@ def _check(cdef, fn, kind, owner, inputs, chain):
                 return {'verdict': 'error', 'detail': 'when failed: %r' % (e,)}
         whens.append((cls, w, cn, when))
     # call
-    fparams = [a.arg for a in func_ast(fn)[0].args.args]
-    fkwonly = [a.arg for a in func_ast(fn)[0].args.kwonlyargs]
+    # a wrapped callable (functools.lru_cache and the like) is CALLED as the class holds it; only its signature is
+    # read from the wrapped function
+    sigfn = fn if hasattr(fn, '__code__') else getattr(fn, '__wrapped__', None)
+    if sigfn is not None and hasattr(sigfn, '__code__'):
+        fparams = [a.arg for a in func_ast(sigfn)[0].args.args]
+        fkwonly = [a.arg for a in func_ast(sigfn)[0].args.kwonlyargs]
+    else:
+        fparams, fkwonly = [], []
     gh = set(ghosts)
     args = [vals[nm] for nm, _ in params if nm not in gh and nm not in fkwonly]
     kwargs = {nm: vals[nm] for nm, _ in params if nm in fkwonly}
